@@ -213,6 +213,9 @@ def variant_meta(v):
             meta.setdefault(sec, {})[key] = EXP[t][p]
     meta["user"] = {"note": "hello wörld", "number": 3 + v, "ratio": 2.5 * v,
                     "ratio a:b": 1.5 + v,
+                    # (entries whose type differs between variants)
+                    "count": 3 if v % 2 else 3.75,
+                    "mixed": [3, 2.5, "text", True][v % 4],
                     "flag": bool(v % 2), "listy": [1, 2, 3 + v]}
     return meta
 
@@ -228,7 +231,8 @@ def _pipe_case(job):
     _pipe_case.k += 1
     d.mkdir()
     out = []
-    meta = variant_meta(case["variant"])
+    cur_v = case["variant"]
+    meta = variant_meta(cur_v)
     path = d / "f0.rtdc"
     try:
         with RTDCWriter(path, mode="reset") as hw:
@@ -271,6 +275,15 @@ def _pipe_case(job):
             nxt = d / ("f%d.rtdc" % (i + 1))
             with contextlib.redirect_stdout(io.StringIO()):
                 if step == "write_read":
+                    with dclab.new_dataset(path) as ds:
+                        compare(ds.config, step)
+                    continue
+                if step == "rewrite":
+                    cur_v += 1
+                    meta.clear()
+                    meta.update(variant_meta(cur_v))
+                    with RTDCWriter(path, mode="append") as hw:
+                        hw.store_metadata(meta)
                     with dclab.new_dataset(path) as ds:
                         compare(ds.config, step)
                     continue
@@ -317,7 +330,8 @@ def main(tier, seed, replay=None):
                "(incl. online_filter pattern keys) and compared by value, "
                "documented type and idempotence. MC_MetaPipes enumerates "
                "pipelines of storage steps (write/read, export, compress, "
-               "repack, text round trip) applied to a file holding every "
+               "repack, text round trip, second writer session overwriting "
+               "every key with another payload variant) applied to a file holding every "
                "metadata key (+ user entries); after every step every value "
                "is compared. non-trivial = accepted value or pipeline of "
                "length >= 2.")
